@@ -85,7 +85,20 @@ RootedComps == { <<"lch", 2>>, <<"lchuv", 2>>, <<"oklch", 2>>, <<"cam16ucsjmh", 
 -----------------------------------------------------------------------------
 (* geometry and the cumulative distribution functions of the volume measure (Fx numbers) *)
 
-FxHalfC == FxRat(1, 2)
+(* FxMul with the low zero limbs of both factors stripped before the schoolbook product (a float has at most
+   24 / 53 significant bits, most limbs of its 104-bit fixed point form are zero).  Same result as FxMul, bit
+   for bit (MC_Random checks it); several times cheaper for TLC. *)
+RECURSIVE LowZeros(_, _)
+LowZeros(m, i) == IF i > Len(m) \/ m[i] # 0 THEN i - 1 ELSE LowZeros(m, i + 1)
+FxMulZ(x, y) ==
+  IF x[1] = 0 \/ y[1] = 0 THEN IZero
+  ELSE LET kx == LowZeros(x[2], 1)  ky == LowZeros(y[2], 1)
+           p == Mul(SubSeq(x[2], kx + 1, Len(x[2])), SubSeq(y[2], ky + 1, Len(y[2])))
+       IN IMk(x[1] * y[1], ShiftLimbs(p, kx + ky - FL))
+FxSqrZ(x) == FxMulZ(x, x)
+FxCubeZ(x) == FxMulZ(x, FxSqrZ(x))
+
+FxHalfC == <<1, <<0, 0, 0, 0, 0, 0, 0, 4096>>>>          \* 1/2 (MC_Random: = FxRat(1, 2))
 
 (* radius of the cross-section at height x: the HSV cone has its apex at value 0 and its base at value 1;
    the HSL bicone has apexes at lightness 0 and 1 and its widest disc at lightness 1/2 *)
@@ -95,10 +108,10 @@ Radius(shape, x) == IF shape = "bicone"
 
 (* int_0^x R^2 / int_0^1 R^2 :  cone  x^3 ;  bicone  4 x^3  below 1/2,  1 - 4 (1 - x)^3  above *)
 HeightCdf(shape, x) == IF shape = "bicone"
-                       THEN (IF FxLe(x, FxHalfC) THEN FxShl(FxCube(x), 2)
-                             ELSE FxSub(FxOne, FxShl(FxCube(FxSub(FxOne, x)), 2)))
-                       ELSE FxCube(x)
-SatCdf(s) == FxSqr(s)
+                       THEN (IF FxLe(x, FxHalfC) THEN FxShl(FxCubeZ(x), 2)
+                             ELSE FxSub(FxOne, FxShl(FxCubeZ(FxSub(FxOne, x)), 2)))
+                       ELSE FxCubeZ(x)
+SatCdf(s) == FxSqrZ(s)
 
 (* A cone-like colour as its HSV image: height v and saturation as a fraction cn / cd (so that the HWB forms
    need no division: s = 1 - w / v = (v - w) / v).  x: the components as Fx numbers. *)
@@ -119,7 +132,7 @@ Top    == [v |-> FxOne,  cn |-> FxOne,  cd |-> FxOne]
    relative tolerance of a value in [1/2, 1] covers.  2^-(Prec-6) = 64 u; calibration (evidence:
    max_deviation_over_tolerance) stays below 1/8 of it. *)
 RelBits(t) == Prec(t) - 6
-Tiny == FxEps(96)                     \* truncation of the Fx products themselves
+Tiny == <<1, <<256>>>>                  \* 2^-96: truncation of the Fx products themselves (MC_Random: = FxEps(96))
 Tol(a, b, t, abs) == IAdd(IAdd(FxShr(IMax(IAbs(a), IAbs(b)), RelBits(t)), abs), Tiny)
 
 (* TOLERANCE HwbAbs: the HWB forms store b = 1 - v and w = (1 - s) v, so the image v = 1 - b carries an ABSOLUTE
@@ -154,7 +167,7 @@ BoundBits(t) == Prec(t) - 4
 (* the volume relations.  Everything that does not depend on the variate is computed once per event, as a
    "frame"; x: the sample's image, lo, hi: the images of the two ends (Bottom, Top for the whole solid) *)
 
-Lerp(a, b, r) == FxAdd(a, FxMul(r, FxSub(b, a)))
+Lerp(a, b, r) == FxAdd(a, FxMulZ(r, FxSub(b, a)))
 
 (* height:      g = Cdf(x.v)                  ~  fl + r (fh - fl)        fl, fh: the ends' CDF values, ordered
    saturation:  s^2 = n / d for the sample, n1 / d1 and n2 / d2 for the ends; multiplied out:
@@ -162,16 +175,22 @@ Lerp(a, b, r) == FxAdd(a, FxMul(r, FxSub(b, a)))
 Frame(node, t, x, lo, hi) ==
   LET shp == ShapeOf(node)
       a == HeightCdf(shp, lo.v)  b == HeightCdf(shp, hi.v)
-      n == FxSqr(x.cn)   d == FxSqr(x.cd)
-      n1 == FxSqr(lo.cn) d1 == FxSqr(lo.cd)
-      n2 == FxSqr(hi.cn) d2 == FxSqr(hi.cd)
-      A == FxMul(n1, d2)  B == FxMul(n2, d1)  dd == FxMul(d1, d2)
+      n == FxSqrZ(x.cn)   d == FxSqrZ(x.cd)
+      n1 == FxSqrZ(lo.cn) d1 == FxSqrZ(lo.cd)
+      n2 == FxSqrZ(hi.cn) d2 == FxSqrZ(hi.cd)
+      A == FxMulZ(n1, d2)  B == FxMulZ(n2, d1)  dd == FxMulZ(d1, d2)
   IN [ g |-> HeightCdf(shp, x.v), fl |-> FxMin(a, b), fh |-> FxMax(a, b), habs |-> HwbHeightAbs(node, t),
-       lhs |-> FxMul(n, dd), d |-> d, sl |-> FxMin(A, B), sh |-> FxMax(A, B),
-       sabs |-> FxMul(HwbSatAbs(node, t), FxMul(x.cd, dd)) ]
+       lhs |-> FxMulZ(n, dd), d |-> d, sl |-> FxMin(A, B), sh |-> FxMax(A, B),
+       sabs |-> FxMulZ(HwbSatAbs(node, t), FxMulZ(x.cd, dd)) ]
 
 HeightRel(t, f, r) == LET want == Lerp(f.fl, f.fh, r) IN FxNearAbs(f.g, want, Tol(f.g, want, t, f.habs))
-SatRel(t, f, r) == LET rhs == FxMul(f.d, Lerp(f.sl, f.sh, r)) IN FxNearAbs(f.lhs, rhs, Tol(f.lhs, rhs, t, f.sabs))
+SatRel(t, f, r) == LET rhs == FxMulZ(f.d, Lerp(f.sl, f.sh, r)) IN FxNearAbs(f.lhs, rhs, Tol(f.lhs, rhs, t, f.sabs))
+
+(* between the ends, in CDF space (the maps are monotone): the same frame without a variate.
+   Saturation: not below both ends', not above both ends' *)
+HeightBetween(t, f) == FxBetween(f.g, f.fl, f.fh, Tol(f.fl, f.fh, t, f.habs))
+SatBetween(t, f) == LET lo == FxMulZ(f.d, f.sl)  hi == FxMulZ(f.d, f.sh)
+                    IN FxBetween(f.lhs, lo, hi, Tol(lo, hi, t, f.sabs))
 
 (* hue: h, lo, hi, r exact dyadics; h on the circle *)
 HueRel(t, h, lo, hi, r) ==
@@ -213,29 +232,15 @@ RootedBetween(t, x, lo, hi) ==
   LET sl == DyMulPow2(DyMax(DyAbs(lo), DyAbs(hi)), -CoordBits(t))
   IN DyLe(DySub(DyMin(lo, hi), sl), x) /\ DyLe(x, DyAdd(DyMax(lo, hi), sl))
 
-(* cone-like types: between in CDF space (monotone maps), on the HSV image *)
-HeightBetween(node, t, x, lo, hi) ==
-  LET sh == ShapeOf(node)
-      a == HeightCdf(sh, lo.v)  b == HeightCdf(sh, hi.v)  g == HeightCdf(sh, x.v)
-  IN FxBetween(g, FxMin(a, b), FxMax(a, b), Tol(a, b, t, HwbHeightAbs(node, t)))
-(* n/d >= n1/d1 - slack  <=>  n d1 + slack d d1 >= n1 d ; s between the ends' s: not below both, not above both *)
-SatBetween(node, t, x, lo, hi) ==
-  LET n == FxSqr(x.cn)   d == FxSqr(x.cd)
-      ge(e) == LET n1 == FxSqr(e.cn) d1 == FxSqr(e.cd) ls == FxMul(n, d1) rs == FxMul(n1, d)
-               IN FxLe(rs, FxAdd(ls, Tol(ls, rs, t, FxMul(HwbSatAbs(node, t), FxMul(x.cd, d1)))))
-      le(e) == LET n1 == FxSqr(e.cn) d1 == FxSqr(e.cd) ls == FxMul(n, d1) rs == FxMul(n1, d)
-               IN FxLe(ls, FxAdd(rs, Tol(ls, rs, t, FxMul(HwbSatAbs(node, t), FxMul(x.cd, d1)))))
-  IN (ge(lo) \/ ge(hi)) /\ (le(lo) \/ le(hi))
-
 FxSeq(c) == [i \in DOMAIN c |-> FxOfDy(c[i])]
 
-(* every non-hue component between the ends; c, lo, hi: Dy sequences of equal length *)
-UniformBetween(node, t, al, c, lo, hi) ==
+(* every non-hue component between the ends; c, lo, hi: Dy sequences of equal length; f: the frame (cone-like
+   types only) *)
+UniformBetween(node, t, al, c, lo, hi, f) ==
   /\ Len(c) = NComp(node) + al /\ Len(lo) = Len(c) /\ Len(hi) = Len(c)
   /\ (al = 1 => DirectBetween(c[Len(c)], lo[Len(c)], hi[Len(c)]))
   /\ IF node \in VolumeNodes
-     THEN LET x == Img(node, FxSeq(c))  a == Img(node, FxSeq(lo))  b == Img(node, FxSeq(hi))
-          IN HeightBetween(node, t, x, a, b) /\ SatBetween(node, t, x, a, b)
+     THEN HeightBetween(t, f) /\ SatBetween(t, f)
      ELSE \A i \in 1..NComp(node) :
             \/ i = HueIdx(node)
             \/ IF <<node, i>> \in RootedComps THEN RootedBetween(t, c[i], lo[i], hi[i])
@@ -266,7 +271,7 @@ Verdict(dist, node, t, al, lo, hi, VS, out) ==
       huedom == hi_ # 0 /\ (dist = "standard" \/ HueDomain(hlo, hhi))
       f == Frame(node, t, x, a, b)
   IN IF dist = "standard" /\ ~StandardWithin(node, t, al, out) THEN "standard-out-of-bounds"
-     ELSE IF dist = "uniform" /\ ~UniformBetween(node, t, al, out, lo, hi) THEN "uniform-component-outside-ends"
+     ELSE IF dist = "uniform" /\ ~UniformBetween(node, t, al, out, lo, hi, f) THEN "uniform-component-outside-ends"
      ELSE IF vol /\ ~(\E V \in VS : VolumeNoHue(t, f, V)) THEN "not-volume-uniform"
      ELSE IF dist = "uniform" /\ huedom /\ ~OnArc(t, out[hi_], hlo, hhi) THEN "uniform-hue-off-arc"
      ELSE IF vol /\ huedom /\ ~(\E V \in VS : VolumeAll(t, f, out[hi_], hlo, hhi, V))
